@@ -1,4 +1,4 @@
-\* design run (quick): all one-sided laws on names that change under lower(): alphabet { / A E-acute(upper) I-dot-above i
+\* design run (quick): all one-sided laws on names that change under lower(): alphabet { / A : E-acute(upper) I-dot-above i
 \* combining-dot } - U+0130 lower-cases to TWO characters - all 8 conventions, |p| <= 3, |q| <= 1
 CONSTANTS
   Seps = {1, 2}
@@ -8,7 +8,7 @@ CONSTANTS
   LP = 3
   LQ = 1
   LR = 0
-  Ext = {1, 4, 9, 10, 11, 12}
+  Ext = {1, 4, 8, 9, 10, 11, 12}
 SPECIFICATION PathsSpec
 INVARIANT DesignU
 INVARIANT DesignB
